@@ -8,9 +8,9 @@
  *   R:<hex>;<hex>;...      reference text per ITEM, computed with libc only: literal itself, "%" for P,
  *                          snprintf(one specification, the C value the property assigns) for C,
  *                          show_to(arg, fresh String, 0) for D; '-' when the item has no argument
- *   S:<exn>:<ret>:<hex>[:<tail>]   print_to_with on a heap String holding <init>, at <pos>:
- *                          exn = ok | exception name; hex = raw bytes [0,ret) when pos <= len(init),
- *                          else the C string and tail = raw bytes [pos,ret)
+ *   S:<exn>:<ret>:<cstr>:<seg>   print_to_with on a heap String holding <init>, at <pos>:
+ *                          exn = ok | exception name; cstr = the String's C string afterwards;
+ *                          seg = raw bytes [pos,ret) of its buffer (what was written), empty unless ok
  *   F:<exn>:<ret>:<hex>    print_to_with on a File already holding <init>; hex = the file read back
  *   C:<exn>:<ret>:<calls>  print_to_with on a recording sink: F<pos>.<piecehex> per format_to call,
  *                          S<pos>.<arg#> per show_to call (arguments of %$ are probe objects here)
@@ -232,11 +232,10 @@ static void one_case(char* line) {
     catch (e) { ex = exn_name(e); ret = -1; }
     char* v = c_str(str);
     P(" | S:%s:%d:", ex, ret);
-    if (ret >= 0 && (size_t)pos <= ninit && ret >= pos) {
-      char* cp = malloc((size_t)ret + 1); memcpy(cp, v, (size_t)ret); mask(cp, (size_t)ret); phex(cp, (size_t)ret);
-    } else {
-      size_t n = strlen(v); char* cp = strdup(v); mask(cp, n); phex(cp, n);
-      if (ret >= pos && ret >= 0) { size_t m = (size_t)(ret - pos); char* tp = malloc(m + 1); memcpy(tp, v + pos, m); mask(tp, m); P(":"); phex(tp, m); }
+    { size_t n = strlen(v); char* cp = malloc(n + 1); memcpy(cp, v, n); mask(cp, n); phex(cp, n); }
+    P(":");
+    if (ret >= 0 && ret >= pos) {     /* the segment [pos,ret) lies inside the buffer of pos+size+1 bytes */
+      size_t m = (size_t)(ret - pos); char* tp = malloc(m + 1); memcpy(tp, v + pos, m); mask(tp, m); phex(tp, m);
     }
   }
   /* File sink */
